@@ -191,9 +191,12 @@ class Pipeline():
                             f"shortcut '{shortcut_name}' parser_args should "
                             "be a list, not a string.")
                     # append context_args to shortcut's parser_args
+                    # new list, so downstream mutations (parsers can hand the
+                    # args list itself to context) don't touch the original in
+                    # config
                     context_args = (
                         parser_args + context_args if context_args
-                        else parser_args)
+                        else list(parser_args))
 
                 skip_parse = shortcut.get('skip_parse')
                 # flip the bit - skip_parse means inverse of parse_args, but
